@@ -1,5 +1,7 @@
 """C09 -- a parse is a function of its input, not of earlier parses."""
 import itertools
+import shutil
+import tempfile
 import json
 import os
 import re
@@ -164,7 +166,10 @@ V7 = """program progMain
   900 format (1x, 'a!b', i5) ! format
 end program progMain
 """
-SOURCES = dict(V1=V1, V2=V2, V3=V3, V4=V4, V5=V5_08, V6=V6, V7=V7, I1=I1, I2=I2, I3=I3, I4=I4, I5=I5, IK=IK, X1=X1, X2=X2, X3=X3_08, X4=X4)
+# a source with INCLUDE lines that no reader of this check can resolve on its own search path: they must stay Include_Stmt
+XI = ("program progInc\n  include 'c09_decls.inc'\n  integer :: iVal\n  iVal = 1\n  include \"c09_body.inc\"\nend program progInc\n")
+INC_FILES = {"c09_decls.inc": "integer :: from_project_a\n", "c09_body.inc": "iVal = 2\n"}
+SOURCES = dict(XI=XI, V1=V1, V2=V2, V3=V3, V4=V4, V5=V5_08, V6=V6, V7=V7, I1=I1, I2=I2, I3=I3, I4=I4, I5=I5, IK=IK, X1=X1, X2=X2, X3=X3_08, X4=X4)
 
 
 class _Sources(dict):
@@ -193,10 +198,17 @@ def own_unit_names(src):
     return [m.group(1).lower() for m in (_UNIT_RE.match(l) for l in src.split("\n")) if m]
 
 
-def observe(p, src, kw):
-    """parse src with parser p; returns (kind, canonical repr, canonical str)"""
+def observe(p, src, kw, via_file=None):
+    """parse src with parser p; returns (kind, canonical repr, canonical str).  via_file: a directory in which the
+    source is written and read through FortranFileReader (default include directories)"""
     import fp
-    rd = fp.reader(src, **kw)
+    if via_file is not None:
+        path = os.path.join(via_file, "c09_unit.f90")
+        with open(path, "w") as f:
+            f.write(src)
+        rd = fp.FortranFileReader(path, **kw)
+    else:
+        rd = fp.reader(src, **kw)
     try:
         t = p(rd)
     except fp.utils.FortranSyntaxError:
@@ -217,9 +229,20 @@ def run_history(arg):
     from fparser.two.parser import ParserFactory
     p = None
     leaks = []
+    tmp = []
     for op in ops:
         if op[0] == "create":
             p = ParserFactory().create(std=op[1])
+        elif op[0] == "parsefile":
+            # a file in a directory that also holds include files, read with the default include directories
+            if p is None:
+                p = ParserFactory().create(std="f2003")
+            d = tempfile.mkdtemp(prefix="verif_c09_")
+            tmp.append(d)
+            for nm, txt in INC_FILES.items():
+                with open(os.path.join(d, nm), "w") as f:
+                    f.write(txt)
+            observe(p, SOURCES[op[1]], kw, via_file=d)
         else:
             if p is None:
                 p = ParserFactory().create(std="f2003")
@@ -241,7 +264,14 @@ def run_history(arg):
                     else:
                         tag = "changes_tables"
                     leaks.append((tag + ":" + op[1], "tables changed by failed parse: %r -> %r" % (before, fp.tables_str())))
-    final = observe(p, SOURCES[xname], kw)
+    if xname.endswith("@file"):
+        d = tempfile.mkdtemp(prefix="verif_c09_")
+        tmp.append(d)
+        final = observe(p, SOURCES[xname[:-5]], kw, via_file=d)
+    else:
+        final = observe(p, SOURCES[xname], kw)
+    for d in tmp:
+        shutil.rmtree(d, ignore_errors=True)
     return dict(final=final, leaks=leaks)
 
 
@@ -311,6 +341,17 @@ def histories(ctx):
         for std in ("f2003", "f2008"):
             tg = singles if (ctx.quick and i % 2 == 0) or not ctx.quick else singles[i % 3::3]
             for x in tg + ["V4", "V5", "V6", "V7"]:
+                cases.append((h + (("create", std),), std, x))
+    # reader-level state: files read from a directory that holds include files (default include directories), then a
+    # source whose INCLUDE lines name those files, through a string reader and through a file reader elsewhere
+    gamma = [("parsefile", "V1"), ("parsefile", "XI"), ("parsefile", "I1"), ("parse", "V2"), ("parse", "XI")]
+    hg = []
+    for n in range(1, 3):
+        hg += list(itertools.product(gamma, repeat=n))
+    hg = [h for h in hg if any(o[0] == "parsefile" for o in h)]
+    for h in hg:
+        for std in ("f2003", "f2008"):
+            for x in ("XI", "XI@file", "X1@file"):
                 cases.append((h + (("create", std),), std, x))
     # generated programs parsed under one standard, then another generated program under the other
     for k in range(ctx.n(60, 1500)):
